@@ -228,16 +228,16 @@ def _install():
     def g_items(rng, cx):
         return {"n": rng.randint(0, 6)}
 
-    def items(p, cx_kind):
-        return [[1, 2, 3]] * p["n"] if cx_kind == "b" else list(range(1, p["n"] + 1))
+    def items(p, c):
+        return [[1] * (c.bsize or 3)] * p["n"] if c.kind == "b" else list(range(1, p["n"] + 1))
     PRE = lambda p: {"m": "pad", "pre": p["n"], "post": 0}
     POST = lambda p: {"m": "pad", "pre": 0, "post": p["n"]}
-    reg("Stream.append", "any", "same", g_items, lambda s, p, c: Stream(s).append(items(p, c.kind)), POST)
-    reg("prepend", "any", "same", g_items, lambda s, p, c: Stream(items(p, c.kind)).append(s), PRE)
-    reg("chain", "any", "same", g_items, lambda s, p, c: al.chain(items(p, c.kind), s), PRE)
+    reg("Stream.append", "any", "same", g_items, lambda s, p, c: Stream(s).append(items(p, c)), POST)
+    reg("prepend", "any", "same", g_items, lambda s, p, c: Stream(items(p, c)).append(s), PRE)
+    reg("chain", "any", "same", g_items, lambda s, p, c: al.chain(items(p, c), s), PRE)
     reg("chain.star", "any", "same", g_items,
-        lambda s, p, c: al.chain.from_iterable(iter([items(p, c.kind), s])), PRE)
-    reg("Stream(a,b)", "any", "same", g_items, lambda s, p, c: Stream(items(p, c.kind), s), PRE)
+        lambda s, p, c: al.chain.from_iterable(iter([items(p, c), s])), PRE)
+    reg("Stream(a,b)", "any", "same", g_items, lambda s, p, c: Stream(items(p, c), s), PRE)
 
     def b_copy(s, p, c):
         st = Stream(s)
@@ -290,7 +290,17 @@ def _install():
         return acc
     reg("thub", "s", "s", lambda rng, cx: {"n": rng.randint(1, 4)}, b_thub, lambda p: {"m": "par", "n": p["n"]})
 
-    reg("elementwise", "s", "s", lambda rng, cx: {"f": rng.choice(["sin", "cos", "exp", "sqrt", "dB20", "log2", "sign"])},
+    def b_poly(s, p, c):
+        x = al.x
+        poly = sum(_fr(cf) * x ** pw for pw, cf in p["terms"])
+        return poly(Stream(s), horner=p["horner"])
+    reg("Poly.__call__", "s", "s",
+        lambda rng, cx: {"terms": [[pw, rng.choice([1, 2, -1, "1/2"])] for pw in sorted(rng.sample(range(0, 6), rng.randint(1, 4)))],
+                         "horner": rng.choice(["auto", True, False])},
+        b_poly, lambda p: {"m": "par", "n": len(p["terms"])})
+    reg("gammatone", "s", "s", lambda rng, cx: {"kind": rng.choice(["sampled", "slaney", "klapuri"])},
+        lambda s, p, c: al.gammatone[p["kind"]](.3, .1)(s), lambda p: {"m": "cascade", "n": 4})
+    reg("elementwise", "s", "s", lambda rng, cx: {"f": rng.choice(["sin", "cos", "exp", "sqrt", "dB20", "log2", "sign", "midi2freq", "absolute"])},
         lambda s, p, c: getattr(al, p["f"])(Stream(s)), SAMPLE, head_only=True)
 
     # --- filters -------------------------------------------------------------------------------------
@@ -333,12 +343,12 @@ def _install():
     def b_design(s, p, c):
         k = p["kind"]
         tv = p["tv"]
-        par = (Stream(c.mk_aux()) * .1) if tv else .3
+        par = lambda: (Stream(c.mk_aux()) * .1) if tv else .3
         if k.startswith("lowpass") or k.startswith("highpass"):
             fam, strat = k.split(".")
-            f = getattr(al, fam)[strat](par)
+            f = getattr(al, fam)[strat](par())
         elif k.startswith("resonator"):
-            f = al.resonator[k.split(".")[1]](par, .1)
+            f = al.resonator[k.split(".")[1]](par(), .1)
         elif k == "comb.fb":
             f = al.comb.fb(3, (Stream(c.mk_aux()) * .1) if tv else .5)
         elif k == "comb.tau":
@@ -417,11 +427,11 @@ def _install():
             return al.blocks(s, p["size"], p["hop"])
         if p["route"] == "method":
             return Stream(s).blocks(p["size"], p["hop"])
-        return Stream(s).blocks(size=p["size"], hop=p["hop"], padval=None)
+        return Stream(s).blocks(size=p["size"], hop=p["hop"], padval=0)
     reg("blocks", "s", "b", g_blocks, b_blocks,
         lambda p: {"m": "blocks", "size": p["size"], "hop": p["hop"] or p["size"]})
     reg("zero_pad", "any", "same", lambda rng, cx: {"left": rng.randint(0, 6), "right": rng.randint(0, 3)},
-        lambda s, p, c: al.zero_pad(s, left=p["left"], right=p["right"], zero=([0, 0, 0] if c.kind == "b" else 0)),
+        lambda s, p, c: al.zero_pad(s, left=p["left"], right=p["right"], zero=([0] * (c.bsize or 3) if c.kind == "b" else 0)),
         lambda p: {"m": "pad", "pre": p["left"], "post": p["right"]})
 
     def g_ola(rng, cx):
@@ -532,12 +542,15 @@ def _gen_chain(rng, depth, only=None):
 
 
 def _kinds(chain):
-    """kind in front of every stage"""
+    """(kind, block size) in front of every stage"""
     R = registry()
-    kind, out = "s", []
+    kind, bsize, out = "s", None, []
     for el in chain:
-        out.append(kind)
-        kind = _out_kind(R[el["st"]], el["p"], kind)
+        out.append((kind, bsize))
+        nk = _out_kind(R[el["st"]], el["p"], kind)
+        if el["st"] == "blocks" or (el["st"] == "stft" and not el["p"]["ola"]):
+            bsize = el["p"]["size"]
+        kind = nk
     return out
 
 
@@ -564,6 +577,10 @@ def _model_chain(c):
 
 def _attach(cases):
     """Ask the Lean spec how many source items K outputs need; size the sources accordingly."""
+    for c in cases:
+        if c.get("entry") == "reads" and c.get("mode") == "drain":
+            c.setdefault("need", 0)
+            c.setdefault("cap", c["n"] + 3000)
     todo = [c for c in cases if c.get("entry") == "reads" and "need" not in c]
     if not todo:
         return cases
@@ -579,21 +596,38 @@ def _attach(cases):
 
 
 MODES = ("finite", "trip", "endless")
+# stages whose end-of-source behaviour is modelled here (epilogue `onEnd`) and is not one of the
+# defects owned by other properties (D1 skip/limit/take past the end, D6 resample, D7, D11)
+DRAIN_OK = {"Stream", "Stream.map", "imap", "Stream.__call__", "takewhile", "Stream.filter", "ifilter",
+            "ifilterfalse", "compress", "dropwhile", "Stream.append", "prepend", "chain", "chain.star",
+            "Stream(a,b)", "Stream.copy", "tee", "islice", "op.scalar", "op.unary", "Stream.real", "thub",
+            "ZFilter.__call__", "CascadeFilter", "ParallelFilter", "accumulate.z", "accumulate.itertools",
+            "maverage.deque", "maverage.recursive", "maverage.fir", "envelope.abs", "envelope.squared", "amdf",
+            "clip", "zcross", "blocks", "zero_pad", "overlap_add.list", "stft", "Poly.__call__", "gammatone"}
+
+
+def _drainable(chain):
+    for el in chain:
+        if el["st"] not in DRAIN_OK:
+            return False
+        if el["st"] == "overlap_add.list" and el["p"]["detect"]:
+            return False      # size detection peeks one block: D7 on an empty block stream
+    return True
 
 
 def generate(rng, tier, scale=1):
     R = registry()
     cases = []
     quick = tier == "quick"
-    nsets = (3 if quick else 60) * scale
+    nsets = (8 if quick else 60) * scale
     for name in sorted(R):
         for i in range(nsets):
             chain = _gen_chain(rng, 1, only=name)
-            K = 12 if quick or i % 4 else rng.choice([0, 1, 40, 200])
+            K = 12 if i % 4 else rng.choice([0, 1, 40] if quick else [0, 1, 40, 200])
             for mode in MODES:
                 cases.append({"entry": "reads", "chain": [dict(el) for el in chain], "k": K, "mode": mode,
                               "slack": rng.choice([1, 2, 7, 30]), "vals": "pos" if R[name]["head_only"] or rng.random() < .3 else "signed"})
-    nchains = (300 if quick else 2500) * scale
+    nchains = (1500 if quick else 12000) * scale
     maxd = 3 if quick else 5
     for _ in range(nchains):
         chain = _gen_chain(rng, rng.randint(2, maxd))
@@ -601,6 +635,17 @@ def generate(rng, tier, scale=1):
         cases.append({"entry": "reads", "chain": chain, "k": rng.choice([1, 2, 3, 5, 8, 12] if quick else [1, 3, 8, 12, 30]),
                       "mode": rng.choice(MODES), "slack": rng.choice([1, 3, 20]),
                       "vals": "pos" if head_pos or rng.random() < .3 else "signed"})
+    ndrain = (1000 if quick else 8000) * scale
+    made = 0
+    for _ in range(ndrain * 6):
+        if made >= ndrain:
+            break
+        chain = _gen_chain(rng, rng.choice([1, 1, 2, 3]), only=rng.choice(sorted(DRAIN_OK)))
+        if not _drainable(chain):
+            continue
+        made += 1
+        cases.append({"entry": "reads", "chain": chain, "k": 400, "mode": "drain", "n": rng.choice([0, 1, 2, 3, 5, 8, 13, rng.randint(0, 40)]),
+                      "vals": "signed"})
     if scale == 1:
         for n in range(0, 9):
             for ln in (n, n + 1, n + 5):
@@ -616,7 +661,10 @@ def _run_reads(c):
     R = registry()
     K = c["k"]
     mode = c["mode"]
-    n = None if mode == "endless" else c["need"] + (0 if mode == "trip" else c["slack"])
+    if mode == "drain":
+        n = c["n"]
+    else:
+        n = None if mode == "endless" else c["need"] + (0 if mode == "trip" else c["slack"])
     RUNAWAY = c.get("cap", c["need"] + 3000)
     src = Src(n, trip=(mode == "trip"), vals=c.get("vals", "signed"), cap=RUNAWAY)
     ctx = Ctx()
@@ -628,7 +676,7 @@ def _run_reads(c):
     stage_objs = []
     for i, el in enumerate(c["chain"]):
         ctx.stage = i
-        ctx.kind = kinds[i]
+        ctx.kind, ctx.bsize = kinds[i]
         out = R[el["st"]]["build"](cur, el["p"], ctx)
         stage_objs.append(out)
         if i + 1 < len(c["chain"]):
@@ -716,6 +764,8 @@ def impl(c):
 
 def request(c):
     if c["entry"] == "reads":
+        if c["mode"] == "drain":
+            return {"entry": "reads", "chain": _model_chain(c), "n": c["n"], "k": c["k"]}
         n = c["need"] + (64 if c["mode"] == "endless" else (0 if c["mode"] == "trip" else c["slack"]))
         return {"entry": "reads", "chain": _model_chain(c), "n": n, "k": c["k"]}
     return {k: v for k, v in c.items() if k in ("entry", "n", "len", "k")}
@@ -731,16 +781,28 @@ def _diff(c, io, drv, which):
         out.append("construction pulled items: counts=%r (taps then aux)" % (io["c0"],))
     if any(io.get("c1", [])):
         out.append("iter() on the output pulled items: counts=%r" % (io["c1"],))
-    if io.get("ended") or io["outs"] != c["k"]:
+    drain = c["mode"] == "drain"
+    if drain:
+        # finite source consumed to its end: the model predicts every pull count and where the output ends;
+        # the closed forms (spec) speak only about outputs the source is long enough for
+        if which == "model" and io["outs"] != drv["outs"]:
+            out.append("finite source of %d items: impl delivered %d outputs, model %d" % (c["n"], io["outs"], drv["outs"]))
+    elif io.get("ended") or io["outs"] != c["k"]:
         out.append("only %d of %d outputs delivered" % (io["outs"], c["k"]))
     want = drv[which]
+    if drain and which == "spec":
+        want = [[v for v in want[0] if v <= c["n"]]]
     for i, (got, exp) in enumerate(zip(io["levels"], want)):
+        if drain and which == "spec":
+            got = got[:len(exp)]
         exp = exp[:len(got)]
         if got != exp:
             j = next(k for k in range(len(got)) if k >= len(exp) or got[k] != exp[k])
             out.append("stage %d (%s): pulls in front of it after next #%d: impl=%d %s=%s" % (
                 i, c["chain"][i]["st"], j + 1, got[j], which, exp[j] if j < len(exp) else "none"))
     for (i, rule, got) in io["aux"]:
+        if drain:
+            break
         exp = want[i][:len(got)]
         if got != exp:
             j = next(k for k in range(len(got)) if k >= len(exp) or got[k] != exp[k])
@@ -814,10 +876,15 @@ def shrink(c):
     for i in range(len(ch)):
         if _well_kinded([ch[i]]):
             cands.append(dict(_strip(c), chain=[ch[i]]))
-    if c["k"] > 1:
+    if c["mode"] == "drain":
+        if c["n"] > 0:
+            cands.append(dict(_strip(c), n=c["n"] - 1))
+            cands.append(dict(_strip(c), n=c["n"] // 2))
+        cands = [x for x in cands if _drainable(x["chain"])]
+    elif c["k"] > 1:
         cands.append(dict(_strip(c), k=c["k"] - 1))
         cands.append(dict(_strip(c), k=max(1, c["k"] // 2)))
-    if c["mode"] != "finite":
+    if c["mode"] not in ("finite", "drain"):
         cands.append(dict(_strip(c), mode="finite", slack=5))
     for i, el in enumerate(ch):
         for key, val in el["p"].items():
@@ -838,10 +905,13 @@ def neighbours(c):
     if c["entry"] != "reads":
         return
     cands = []
+    if c["mode"] == "drain":
+        for n in range(max(0, c["n"] - 2), c["n"] + 3):
+            cands.append(dict(_strip(c), n=n))
     for k in range(0, min(c["k"] + 3, 16)):
-        cands.append(dict(_strip(c), k=k))
+        cands.append(dict(_strip(c), k=k, mode="finite", slack=3))
     for mode in MODES:
-        cands.append(dict(_strip(c), mode=mode, slack=3))
+        cands.append(dict(_strip(c), mode=mode, slack=3, k=min(c["k"], 12)))
     for el in c["chain"]:
         if _well_kinded([el]):
             cands.append(dict(_strip(c), chain=[el], k=8, mode="finite", slack=3))
@@ -858,11 +928,15 @@ def classify(c, io, drv):
         return "%s:err:%s" % (st, io["err"])
     if any(io["c0"]) or any(io.get("c1", [])):
         return "%s:reads-at-construction" % "+".join(el["st"] for el in c["chain"])
-    want = drv["spec"]
+    want = drv["spec"] if c["mode"] != "drain" else drv["model"]
+    if c["mode"] == "drain" and io["outs"] != drv["outs"] and all(g == e[:len(g)] or g[:len(e)] == e for g, e in zip(io["levels"], want)):
+        return "%s:finite-source-output-count" % "+".join(el["st"] for el in c["chain"])
     for i, (got, exp) in enumerate(zip(io["levels"], want)):
         exp = exp[:len(got)]
         if got != exp:
-            j = next(k for k in range(len(got)) if got[k] != exp[k])
+            j = next(k for k in range(len(got)) if k >= len(exp) or got[k] != exp[k])
+            if j >= len(exp):
+                return "%s:extra-outputs" % c["chain"][i]["st"]
             return "%s:%s" % (c["chain"][i]["st"], "over-read" if got[j] > exp[j] else "under-read")
     for (i, rule, got) in io["aux"]:
         if got != want[i][:len(got)]:
